@@ -58,6 +58,10 @@ CLAIMED = {
         text="Lean theorems over all batch histories and momenta: the code's update equals the exponential moving average initialised by the first batch whenever no intermediate value equals the sentinel 1 (counter-example theorem for the sentinel), adoption of a quantized input's scale, first-batch and momentum-0 laws, single-batch non-saturation from C03. "
              "The float arithmetic of the update (scalar cast to float32, 1-m in double) is modelled bit-exactly; per-batch ranges recorded by harness hooks are folded by the model and compared with the module buffers bit for bit, for both scales, three dtypes and activation qtypes, chained modules, several contexts, streamline on/off.",
         design="6/C12", technique="Lean 4 proof by induction over histories + bit-exact correspondence of recorded histories"),
+    "C13": dict(
+        text="Lean theorems: for every well-nested trace of contexts (any depth and length, exits by exception included) the hook registries and the mode stack are restored to their previous content (induction on the trace with a freshness invariant on handle ids), nested exits keep the outer context installed, the event machine used by the harness equals the structural definition; "
+             "write-set tables of the inference/quantization entry points are regenerated from the source text each run and checked empty by decide. Correspondence: torch's real global registries and mode stack after every enter/exit of random traces; bit-level snapshots of state_dict, qtypes and float sources around forwards, quantize, freeze and library calls; repeated evaluation bit-identical.",
+        design="6/C13", technique="Lean 4 proof by induction on well-nested traces + regenerated write-set tables + state-snapshot differential checks"),
 }
 
 NOT_YET = "check not yet built in this round (build in progress; see DESIGN.md build order)"
